@@ -95,6 +95,23 @@ func genC01(seed int64, tier string) *Scenario {
 		cmd.Delay = time.Duration(50+rng.Intn(300)) * time.Millisecond
 	}
 	op.Ops = append(op.Ops, cmd)
+	lateExtra := time.Duration(0)
+	if hasOld && (class == 1 || class == 2) && rng.Intn(3) == 0 && cmd.Delay+deployTimeout-2*interval > 150*time.Millisecond {
+		// every previous target fails its probes for a while around the moment
+		// the (probably failing) command gives up, and recovers afterwards: the
+		// service must come back on its previous targets
+		from := cmd.Delay + deployTimeout - 2*interval - 50*time.Millisecond
+		to := cmd.Delay + deployTimeout + interval/2 + 50*time.Millisecond
+		for j := range sc.Targets {
+			if strings.HasPrefix(sc.Targets[j].Addr, "old") && !strings.HasPrefix(sc.Targets[j].Addr, "oldr") {
+				sc.Targets[j].AbsBase = true
+				sc.Targets[j].Phases = []Phase{{Until: from, Kind: "ok"}, {Until: to, Kind: "status", Status: pick(rng, 500, 503)}, {Kind: "ok"}}
+			}
+		}
+		excuse := to + 2*(interval+sc.HC.Timeout) + 100*time.Millisecond
+		sc.Params = map[string]int{"old_flap_excuse_ms": int(excuse / time.Millisecond)}
+		lateExtra = 3*(interval+sc.HC.Timeout) + 400*time.Millisecond
+	}
 	if kind == "rollout_deploy" {
 		op.Ops = append(op.Ops, Op{Kind: "rollout_set", Service: "web", Percent: pick(rng, 50, 100), Allow: []string{"vip"}})
 	}
@@ -115,7 +132,7 @@ func genC01(seed int64, tier string) *Scenario {
 			a.Ops = append(a.Ops, o)
 		}
 		// a few requests several probe intervals after the command
-		a.Ops = append(a.Ops, Op{Kind: "request", Path: "/late", Delay: deployTimeout + 3*interval})
+		a.Ops = append(a.Ops, Op{Kind: "request", Path: "/late", Delay: deployTimeout + 3*interval + lateExtra})
 		sc.Actors = append(sc.Actors, a)
 	}
 	return sc
@@ -125,7 +142,11 @@ var c01Triggers = []string{"deploy.probing", "hc.report", "health.completed", "h
 	"deploy.healthy", "deploy.beforeUpdate", "deploy.beforeInstall", "router.install", "deploy.done", "tgt.probe"}
 
 func neverHealthy(rng *rand.Rand, hcTimeout time.Duration) Phase {
-	switch rng.Intn(5) {
+	switch rng.Intn(7) {
+	case 5:
+		return Phase{Kind: "cutbody", Status: pick(rng, 500, 503, 404)}
+	case 6:
+		return Phase{Kind: "stallbody", Status: pick(rng, 500, 503, 404)}
 	case 0:
 		return Phase{Kind: "refuse"}
 	case 1:
@@ -246,6 +267,9 @@ func checkC01(r *RunResult) []Violation {
 		for _, q := range w.Responses {
 			if q.Ret == 0 || q.Call < cmd.Call {
 				continue
+			}
+			if ex := time.Duration(r.Sc.Params["old_flap_excuse_ms"]) * time.Millisecond; ex > 0 && q.Status == 503 && q.CallT < ex+z {
+				continue // the previous targets were scripted to fail their probes around then
 			}
 			if len(old) > 0 {
 				if q.Status != 200 || !old[q.ServedBy] {
